@@ -25,6 +25,18 @@ CLAIMED = {
    note=TRUST + "Known finding C02-unison-passthrough is listed in known_findings.json with a matcher on (constructor is a unison, "
         "input mixed or >=6 accidentals); any other failure is a violation.",
    design="§4 C02"),
+ "C03": dict(
+   text="Lean theorem fromShorthand_spec, unbounded: any valid note (any accidentals), any accidental string in the shorthand, "
+        "any degree digit, up or down -> right letter and exactly (major size + sharps - flats) semitones away (built on C02's "
+        "ctor_spec and an induction over the accidental loop); down column proved complementary to the up column. Naming, "
+        "determine->from_shorthand round trip and up-then-down identity are kernel evaluations of the whole stated domain "
+        "(35x35 canonical names up to double accidentals; 49 names up to triple x 35 shorthands). invert_spec for all lists. "
+        "Tables fifth_steps/shorthand_lookup regenerated from the source (Tie A); all name pairs <=2/3 accidentals (any order) "
+        "differential (Tie B).",
+   note=TRUST + "Known finding C03-unison-mixed-first-note (same root cause as C02's) listed with a matcher; one defect repaired "
+        "by a fix: commit (60e20c6, '#1' for every augmented unison). up_down_limit pins that the identity stops at 4 accidentals, "
+        "outside the property's domain.",
+   design="§4 C03"),
  "C04": dict(
    text="Whole-table kernel evaluation (decide +kernel) of everything the statement says about each of the 30 keys, the 15 "
         "relative couples, the key objects and signature<->key inversion; unbounded theorems for rejections (any string, any "
